@@ -342,11 +342,13 @@ func wantsToBeReceived(r *pool.Message) bool {
 }
 
 func (b *BlockWise[C]) getSendingMessageCode(token uint64) (codes.Code, bool) {
-	v := b.sendingMessagesCache.Load(token)
-	if v == nil {
-		return codes.Empty, false
-	}
-	return v.Data().Code(), true
+	// read under the cache's lock: once Do has removed the entry the message is the caller's again
+	code, found := codes.Empty, false
+	b.sendingMessagesCache.LoadWithFunc(token, func(v *cache.Element[*pool.Message]) *cache.Element[*pool.Message] {
+		code, found = v.Data().Code(), true
+		return v
+	})
+	return code, found
 }
 
 // Handle middleware which constructs COAP request from blockwise transfer and send COAP response via blockwise.
